@@ -12,7 +12,7 @@ RULE = (
     "encrypted component included; BEC2 with customer-key/update/ECC blocks and all matching decryptors supplied) the fault space is ENUMERATED: every byte "
     "position of the binary x {8 single-bit flips, 00, FF, +1}; every proper prefix of the binary; every proper prefix of the text at character granularity "
     "(odd nibble counts, cuts inside comments and line ends); appended suffixes {00, FF, single nibble 0, newline, copy of the last line, binary 00/FF}; every "
-    "single-bit change of the 128-bit session key (BF3: the session_key argument; BEC2: the key held by one decryptor). Oracle: read_file with check_cmac=True "
+    "single-bit change of the 128-bit session key (BF3: the session_key argument; BEC2: the key held by one decryptor). faults_large: files with a payload of 4-16 KiB, byte faults and cuts at SAMPLED positions (every 61st byte and the borders of every 4 KiB stretch). Oracle: read_file with check_cmac=True "
     "must raise (any exception = error reported) or return content equal to the original: session key (BEC2) and per component description, declared length, "
     "encryption flag and blob (encrypted: blob[:declared]). Comments and unauthenticated auth-block metadata are not part of the verdict. "
     "Non-trivial = the fault leaves the 5-byte signature intact (the structural/MAC checks decide); distinct by (base file, fault)."
@@ -23,7 +23,7 @@ ASSUMPTIONS = [
     "base files are drawn by a seeded random.Random owned by the enumerating driver; the fault product per base file is complete",
 ]
 REQUIRED_CLASSES = ["fault=byte", "fault=cutbin", "fault=cuttext", "fault=append", "fault=keybit", "framing=bf3", "framing=bec2",
-                    "region=dirsize", "region=entry", "region=payload", "region=header", "base.last-payload-trailing00", "cut.drops-only-00"]
+                    "region=dirsize", "region=entry", "region=payload", "region=header", "base.last-payload-trailing00", "cut.drops-only-00", "payload>4096"]
 
 _BASES = {}
 
@@ -188,6 +188,8 @@ def check(case, rec):
     b = build(base)
     rec.cls("fault=" + fault[0])
     rec.cls("framing=" + base["framing"])
+    if any(len(c["blob"]) > 4096 for c in base["comps"]):
+        rec.cls("payload>4096")
     if fault[0] == "none":
         return
     if base["comps"][-1]["blob"].endswith(b"\0") and not base["comps"][-1]["enc"]:
@@ -255,5 +257,45 @@ def enum_faults(tier, shard, nshards, rng):
             yield dict(base=base, fault=fault)
 
 
+def gen_large_base(rng, idx):
+    """one component larger than 4 KiB (8 KiB, 12 KiB ... in thorough): damage far away from the end of a large payload"""
+    n = rng.choice([4097, 5000, 8192, 8193, 9000]) if idx % 4 else rng.choice([12289, 16385])
+    blob = _rb(rng, n - 3) + b"\x00\x00\x01"
+    enc = idx % 3 == 0
+    comps = [dict(desc=[(0xC3, b"\x03"), (0xC2, b"\x02")] if enc else [(0xC3, b"\x02")], blob=blob, actual_len=None, enc=enc)]
+    if idx % 2:
+        comps.append(dict(desc=[(0xC1, b"\x00")], blob=_rb(rng, 20), actual_len=None, enc=False))
+    base = dict(idx=idx, framing="bf3" if idx % 2 == 0 else "bec2", comments=[], comps=comps)
+    if base["framing"] == "bf3":
+        base["key"], base["blocks"] = _rb(rng, 16), []
+    else:
+        base["key"], base["blocks"] = _rb(rng, 16), [dict(kind="upd", code=_rb(rng, 8), version=idx % 256)]
+    return base
+
+
+def enum_faults_large(tier, shard, nshards, rng):
+    """SAMPLED positions on large files (a complete product would cost minutes per file): every 61st byte position plus the
+    first and last two bytes of every 4 KiB stretch of the binary, x {one bit flip, 00, FF}; every prefix cut at those positions."""
+    nbases = 1 if tier == "quick" else 4
+    for i in range(nbases):
+        idx = 100000 + shard * 100 + i
+        brng = random.Random(rng.getrandbits(64))
+        base = gen_large_base(brng, idx)
+        yield dict(base=base, fault=("none",))
+        try:
+            b = build(base)
+        except Violation:
+            continue
+        n = len(b.binary)
+        positions = set(range(5, n, 61)) | {p for k in range(0, n, 4096) for p in (k, k + 1, k - 1, k - 2) if 5 <= p < n} | {n - 1, n - 2}
+        for pos in sorted(positions):
+            old = b.binary[pos]
+            for v in sorted({old ^ (1 << brng.randrange(8)), 0 if old else 0x80, 0xFF if old != 0xFF else 0x7F}):
+                yield dict(base=base, fault=("byte", pos, v))
+        for pos in sorted(positions)[::7]:
+            yield dict(base=base, fault=("cutbin", pos))
+
+
 def parts(tier):
-    return [Part("faults", check=check, enum=enum_faults, quick=(16, 0), thorough=(16, 0), exhaustive=True)]
+    return [Part("faults", check=check, enum=enum_faults, quick=(16, 0), thorough=(16, 0), exhaustive=True),
+            Part("faults_large", check=check, enum=enum_faults_large, quick=(8, 0), thorough=(16, 0))]
